@@ -88,6 +88,20 @@ func refRewritePath(rw c15Rewrite, escaped string) string {
 	return rw.Add + p
 }
 
+// c15EscapeInvalid escapes exactly the bytes RFC 3986 does not allow in a path; everything else stays as it is
+func c15EscapeInvalid(p string) string {
+	var b strings.Builder
+	for i := 0; i < len(p); i++ {
+		c := p[i]
+		if 'a' <= c && c <= 'z' || 'A' <= c && c <= 'Z' || '0' <= c && c <= '9' || strings.IndexByte("-_.~/%!$&'()*+,;=:@", c) >= 0 {
+			b.WriteByte(c)
+		} else {
+			b.WriteString(fmt.Sprintf("%%%02X", c))
+		}
+	}
+	return b.String()
+}
+
 type qparam struct{ k, v string }
 
 func parseQueryOrdered(raw string) (map[string][]string, bool) {
@@ -112,7 +126,9 @@ func parseQueryOrdered(raw string) (map[string][]string, bool) {
 
 // ---- generators ------------------------------------------------------------------------------------------
 
-var c15Segs = []string{"a", "users", "A.b-c_d~e", "a%20b", "%C3%BC", "x;y=1", "a:b@c", "a+b", "%3Fq", "%23frag", "%25", "%2B", "$&'()*,", "!", "caf%c3%a9", "%41%42", "l%6fwer", "api", "v1"}
+var c15Segs = []string{"a", "users", "A.b-c_d~e", "a%20b", "%C3%BC", "x;y=1", "a:b@c", "a+b", "%3Fq", "%23frag", "%25", "%2B", "$&'()*,", "!", "caf%c3%a9", "%41%42", "l%6fwer", "api", "v1",
+	// characters net/url does not accept unescaped in a path (the received form is not a valid encoding), next to ones it does
+	"a|b", "x^y:z", "{id}@host", "u:p@h|x", "<v>", "q\"t;k=v:1", "a%2Bb|c@d:e"}
 
 func c15Path(rng *rand.Rand, rw c15Rewrite) string {
 	var parts []string
@@ -358,7 +374,9 @@ func TestC15(t *testing.T) {
 		}
 		// --- request line ---
 		gotPath, gotQuery, _ := strings.Cut(h.RequestURI, "?")
-		expPath := refRewritePath(rw, path)
+		// characters which may not appear unescaped in a path may arrive escaped (a valid encoding of the very same path)
+		expPath := c15EscapeInvalid(refRewritePath(rw, path))
+		gotPath = c15EscapeInvalid(gotPath)
 		cs.Expected["raw_path"] = expPath
 		switch {
 		case rw.Slashes == "on":
@@ -565,7 +583,8 @@ func c15CreateURL(r *core.Run) {
 	for i := 0; i < n; i++ {
 		rw := c15Rewrites[rng.IntN(len(c15Rewrites))]
 		rw.Scheme = []string{"", "http", "https"}[rng.IntN(3)]
-		path, query := c15Path(rng, rw), c15Query(rng)
+		// the request contexts carry a valid encoding of the received path (requestcontext escapes what may not appear unescaped)
+		path, query := c15EscapeInvalid(c15Path(rng, rw)), c15Query(rng)
 		in, err := url.ParseRequestURI(path)
 		if err != nil {
 			continue
